@@ -1446,6 +1446,7 @@ class Executor(object):
         env = self.contract_env(st, fi, args, kwargs)
         where = '%s:%s' % (st.fn.key if st.fn else '?', getattr(node, 'lineno', '?'))
         pre = st.fork()
+        pre.pc = st.pc      # facts about uninterpreted images (A-fmt ...) met while evaluating a clause stay known
         pre.env = dict(env)
         pre.module = fi.module
         pre.spec = True
@@ -1465,6 +1466,7 @@ class Executor(object):
             self.havoc_modifies(s2, c, env)
             result = self.fresh(s2, t, 'r_' + fi.name)
             post = s2.fork()
+            post.pc = s2.pc
             post.env = dict(env)
             post.env['result'] = result
             post.module = fi.module
@@ -1499,6 +1501,10 @@ class Executor(object):
             # 'self.field' or 'param.field'
             base, _, field = m.partition('.')
             obj = env.get(base)
+            if isinstance(obj, VOpaque):
+                # attribute of an opaque object: all non-stable opaque attributes are forgotten (over-approximation)
+                self.havoc_opaque_fields(st)
+                continue
             if not isinstance(obj, VObj):
                 raise Unsupported('modifies %s: not an object' % m)
             if obj.cls.startswith('$'):
@@ -1535,6 +1541,28 @@ class Executor(object):
             return [(st, Raised(spec['always_raises'], note='from opaque %s' % name))]
         rty = spec.get('returns', 'opaque')
         outs = []
+        fkey = None
+        if spec.get('func'):
+            # a deterministic function of its arguments (no effect): syntactically equal arguments give the same result,
+            # in code and in specifications alike
+            def vk(v):
+                if hasattr(v, 't') and hasattr(v.t, 'get_id'):
+                    return '%s#%d' % (type(v).__name__, v.t.get_id())
+                if isinstance(v, VOpt):
+                    return 'opt(%s,%s)' % (v.isnone.get_id() if hasattr(v.isnone, 'get_id') else v.isnone, vk(v.val))
+                if isinstance(v, VSeq) and v.concrete:
+                    return '[%s]' % ','.join(vk(i) for i in v.items)
+                if isinstance(v, VNone):
+                    return 'None'
+                return None
+            ks = [vk(a) for a in args] + ['%s=%s' % (k_, vk(v_)) for k_, v_ in sorted(kwargs.items())]
+            if all(k_ is not None and not k_.endswith('=None') or k_ == 'None' for k_ in ks):
+                fkey = '$func:%s(%s)' % (short, ';'.join(ks))
+                if rty not in ('str', 'int', 'opaque', 'bool', 'real'):
+                    raise Unsupported("opaque_spec func: result type %s carries per-state facts" % rty)
+                fc = self.__dict__.setdefault('func_cache', {})
+                if fkey in fc:
+                    return [(st, fc[fkey])]
         for t in expand_unions(parse_type(rty)):
             s2 = st.fork()
             pre_ofields, pre_epoch = dict(s2.ofields), s2.epoch
@@ -1544,6 +1572,9 @@ class Executor(object):
                 res = spec['make'](self, s2, args, kwargs)
             else:
                 res = self.fresh(s2, t, 'r_' + short)
+            if fkey is not None:
+                self.func_cache[fkey] = res
+                return [(st, res)]
             ev = Event(short, args, kwargs, res, dict(s2.ghost), lineno, recv=recv)
             ev.key, ev.full = key, name
             ev.pre_ofields, ev.pre_epoch = pre_ofields, pre_epoch
